@@ -49,3 +49,22 @@ def call(fn, *args, **kw):
         return fn(*args, **kw), ""
     except Exception as ex:  # the exception *is* the observation
         return None, type(ex).__name__
+
+
+def represent(a, key, kinds=("f64", "int", "strided", "f32", "f64")):
+    """The same numbers in another in-memory representation, chosen by the case id: int64 (only if all
+    values are integral), a non-contiguous view, float32 (only if every value is exactly representable).
+    Returns (array, name).  The VALUES are unchanged, so every clause of the specification applies as is."""
+    import zlib
+    a = np.asarray(a, dtype=float)
+    k = kinds[zlib.crc32(str(key).encode()) % len(kinds)]
+    finite = np.all(np.isfinite(a))
+    if k == "int" and finite and a.size and np.all(a == np.round(a)):
+        return a.astype(np.int64), "int64"
+    if k == "f32" and finite and a.size and np.all(a.astype(np.float32).astype(float) == a):
+        return a.astype(np.float32), "float32"
+    if k == "strided" and a.ndim >= 1 and a.shape[-1] > 0:
+        buf = np.zeros(a.shape[:-1] + (2 * a.shape[-1],))
+        buf[..., ::2] = a
+        return buf[..., ::2], "strided"
+    return a.copy(), "float64"
